@@ -610,7 +610,10 @@ def jobs_for(pid, tier):
         "C09": both("cursor", ["cursor"]) + setcore + tmap + tset,
         "C10": shaped(both("cursor", ["cursor"]) + core) + setcore + tmap + tset,
         "C11": both("entry", ["entry"]) + tmap,
-        "C12": core + both("entry", ["entry"]) + setcore + tmap + tset,
+        "C12": core + both("entry", ["entry"]) + setcore + tmap + tset
+               # bulk construction over the element shapes too: Extend<&T> (Copy elements only) is reachable with the
+               # plain tagged shape alone, and "the first key object is kept" is stored-key identity
+               + shaped(both("bulk", ["bulk"], bigconsts={"MaxExtra": 1}) + both("setbulk", ["bulk"], mode="set", consts={"MaxExtra": 1}, bigconsts={"Vers": [0]})),
         "C13": prof(both("disjoint", ["disjoint"], consts={"Vers": [0], "MaxKs": 3}, bigconsts={"MaxKs": 4}), "asan", "miri") + tmap + tbig,
         # (MaxExtra = 2: an overflow that is not caused by the LAST item of the source - how far the source was consumed is part of the result)
         "C16": both("bulk", ["bulk"], consts={"MaxExtra": 2}, bigconsts={"MaxExtra": 1}) + both("setbulk", ["bulk"], mode="set", consts={"MaxExtra": 2}, bigconsts={"Vers": [0], "MaxExtra": 1}) + bulk3 + tmap + tset,
